@@ -149,6 +149,19 @@ class Check:
         p = subprocess.run(["cargo", "build", "--offline", "--bin", "vh"], cwd=HARNESS, env=env,
                            stdout=subprocess.PIPE, stderr=subprocess.STDOUT, text=True,
                            timeout=timeout)
+        if p.returncode != 0:
+            # optional API flavours (selectors on non-slice populations) may be what does not compile:
+            # fall back to the core harness so that every other observation is still made
+            first = p.stdout
+            p = subprocess.run(["cargo", "build", "--offline", "--bin", "vh", "--no-default-features"],
+                               cwd=HARNESS, env=env, stdout=subprocess.PIPE, stderr=subprocess.STDOUT,
+                               text=True, timeout=timeout)
+            if p.returncode == 0:
+                errs = [ln for ln in first.splitlines() if ln.startswith("error")][:3]
+                log("note: the harness was built WITHOUT the optional flavour 'iterable_populations' "
+                    "(Best / Worst / Lexicase on a VecDeque did not compile): " + " | ".join(errs))
+                self.assumptions.append("optional flavour 'iterable_populations' did not compile against this "
+                                        "tree and was left out: " + " | ".join(errs))
         self.cov["conformance"]["harness_build_s"] = round(time.time() - t, 1)
         if p.returncode != 0:
             tail = "\n".join(p.stdout.splitlines()[-60:])
